@@ -17,7 +17,7 @@ class Recorder:
         self.violations = []
         self.samples = []
         self.per_clause = {}
-        self.max_viol = 40
+        self.max_viol = 120
 
     def case(self, clause, ok, inp, expected=None, observed=None, nontrivial_key=None, finding_key=None):
         self.evaluations += 1
@@ -29,7 +29,7 @@ class Recorder:
         if not ok:
             # keep at most a few violations per (clause, finding_key)
             same = [v for v in self.violations if v['clause'] == clause and v.get('finding_key') == finding_key]
-            if len(same) < 3 and len(self.violations) < self.max_viol:
+            if len(same) < (1 if str(finding_key).startswith('?') else 3) and len(self.violations) < self.max_viol:
                 self.violations.append(dict(clause=clause, input=_j(inp), expected=_j(expected), observed=_j(observed),
                                             finding_key=finding_key))
         return ok
